@@ -31,7 +31,7 @@ def gen(rng, tier, index):
     if cfg["flavour"] in ("mqtt", "amqtt"):
         cfg["in_prefix"] = rng.choice(["", "gw-out"])
         cfg["out_prefix"] = rng.choice(["", "gw-in"])
-    ops = netgen.make_ops(rng, cfg["version"], rng.randint(15, 60 if tier == "thorough" else 45), WEIGHTS, nodes=(1, 2), scenario=0.35)
+    ops = netgen.make_ops(rng, cfg["version"], rng.randint(15, 60 if tier == "thorough" else 45), WEIGHTS, nodes=(1, 2), scenario=0.35, flood=0.15)
     if cfg["flavour"] in ("serial", "tcp") and rng.random() < 0.25:
         # set_child_value from a second thread while the node's wake-up is being processed
         cfg["sched"] = {"policy": "rw", "seed": rng.getrandbits(32), "p": rng.choice([0.02, 0.08, 0.2])}
